@@ -181,16 +181,22 @@ func runC13Reinit(w *World, tier string, spec *crashSpec, out *c13Run) (bool, in
 	}
 	if spec != nil && !w.Failed() && !done {
 		ws := strings.Join(out.windows, " ; ")
+		inReinit := false
 		for _, wd := range out.windows {
 			// killed inside the handling of the reinit message after one of its
 			// writes: explains a stall on its own (recorded finding); name it alone
 			if strings.HasPrefix(wd, "task=poll/handling=reinit_dkg/") && (strings.HasSuffix(wd, "/after=st.set:sim_fsm_state") || strings.HasSuffix(wd, "/after=st.set:sim_operations")) {
 				ws = wd
+				inReinit = true
 				break
 			}
 		}
 		family := "reinitialisation-stalled-after-crash/"
-		if family+ws != "" && !strings.HasPrefix(ws, "task=poll/handling=reinit_dkg/") {
+		// (whether another window explains the stall is decided by the windows themselves, not by
+		// how the joined list happens to begin: a run with several kills may start with a harmless
+		// kill inside the reinit message - before any of its writes - and hold the recorded window
+		// of an ordinary message further back)
+		if !inReinit {
 			for _, wd := range out.windows {
 				// the window "round state durable, operation not yet" of an ordinary
 				// message (here: of the signing that follows) is the finding already
